@@ -45,6 +45,46 @@ S = {
  "C19-2": ("C19", "emitter", "an empty // comment as the very last bytes of the input is not recognised; needs '//' at end of input without newline", ["C19"]),
  "C20-1": ("C20", "parser", "duplicate-case check compares the unexpanded spelling; needs a const equal to another case value", ["C20"]),
  "C20-2": ("C20", "emitter", "text-label clash set built from text statements only; needs a script label spelled like a produced hoisted text label", ["C20"]),
+ "C01-r2-1": ("C01", "emitter", "parseDoWhileStatement no longer pops the break stack; needs a do-while nested in a loop/switch and a later break of the outer construct that is taken", ["C01"]),
+ "C01-r2-2": ("C01", "emitter", "breakContext tests 'dest == next' before the -1 (return) case; needs a loop as the script's last statement, its break chunk rendered last, and the break taken", ["C01", "C04", "C05"]),
+ "C02-r2-1": ("C02", "emitter", "leaf branch tests fall-through before the -1 false target; needs the condition as the script's last statement (no else), the leaf chunk rendered last and the expression false", ["C02", "C01", "C04"]),
+ "C02-r2-2": ("C02", "emitter", "defeated() rendering 'simplified'; differs only for (!=, TRUE), produced by De Morgan under an odd number of negations", ["C02", "C01"]),
+ "C03-r2-1": ("C03", "emitter", "a switch whose only body is the default's is dropped; needs default body first, body-less cases after it, no case reaching a body", ["C03", "C01"]),
+ "C03-r2-2": ("C03", "emitter", "same reordering as C01-r2-2 found independently (break at script end loses its return)", ["C03", "C01", "C04"]),
+ "C04-r2-1": ("C04", "emitter", "elif stitching appends to the original chunk list; needs an if with >= 2 elif branches", ["C04", "C01"]),
+ "C04-r2-2": ("C04", "emitter", "inline scripts of earlier tables re-emitted after later tables (slice never reset); needs >= 2 tables", ["C04", "C08"]),
+ "C05-r2-1": ("C05", "emitter", "switch without default no longer registers its fall-out target; needs no case body flowing on and the continuation not laid out next", ["C05", "C04", "C01"]),
+ "C05-r2-2": ("C05", "emitter", "no terminator/goto after a chunk ending in end/return + user label; needs a label directly after end/return as the last thing of its block, entered by goto", ["C05", "C01"]),
+ "C06-r2-1": ("C06", "emitter", "movement labels numbered per flush instead of per owning script; needs two inline scripts of one mapscripts statement both using moves()", ["C06", "C08"]),
+ "C06-r2-2": ("C06", "emitter", "terminator applied after de-duplication; needs the same text once with and once without its explicit terminator", ["C06"]),
+ "C07-r2-1": ("C07", "emitter", "only the first literal seam becomes a space; needs format() of three or more adjacent literals", ["C07"]),
+ "C07-r2-2": ("C07", "emitter", "an unmatched '}' drives the control-code level negative; needs a stray '}' followed by more words", ["C07"]),
+ "C08-r2-1": ("C08", "emitter", "plain inline map scripts collected by address of the range variable (go 1.13 semantics); needs >= 2 plain entries with an inline one not last", ["C08"]),
+ "C08-r2-2": ("C08", "emitter", "table entries filtered in place: the first Emit is right, a second Emit of the same parsed program is wrong; needs (label, inline) rows and two emits", ["C17"]),
+ "C09-r2-1": ("C09", "emitter", "constants leak into inline string literals; needs an inline untyped single-part string equal to a constant's name", ["C09", "C13"]),
+ "C09-r2-2": ("C09", "emitter", "untyped selected text case takes the '_' case's type (two cooperating sites); needs plain selected case + typed '_'", ["C09", "C12"]),
+ "C10-r2-1": ("C10", "emitter", "inline-data slot counts only top-level commas; needs a nested-parenthesis argument with a comma before an inline text / moves()", ["C10"]),
+ "C10-r2-2": ("C10", "emitter", "isHexDigit drops lower-case a-f; needs a hex literal with a lower-case digit", ["C10", "C19"]),
+ "C11-r2-1": ("C11", "emitter", "trailing empty elif blocks are pruned; needs an AutoVar condition in a trailing empty elif without else", ["C11"]),
+ "C11-r2-2": ("C11", "emitter", "AutoVar condition operand goes through constant substitution; needs a const named like the result var, or an argument naming a later constant", ["C11", "C13"]),
+ "C12-r2-1": ("C12", "emitter", "case labels of list poryswitches go through constant replacement; needs a const named like a selected case label", ["C12"]),
+ "C12-r2-2": ("C12", "emitter", "a colon-form case starting with a nested poryswitch is parsed like a block; needs 'KEY: poryswitch(..){..}' followed by further cases", ["C12"]),
+ "C13-r2-1": ("C13", "emitter", "table entry with inline script keeps the unexpanded (first token of the) condition; needs a constant / several tokens as table var of a brace-form row", ["C13", "C08"]),
+ "C13-r2-2": ("C13", "emitter", "redefinition check through the substitution helper; needs const X = X followed by a second definition of X", ["C13"]),
+ "C14-r2-1": ("C14", "emitter", "movement termination split across parser and emitter; needs the first step_end inside a selected poryswitch case with more steps after the poryswitch", ["C14", "C12"]),
+ "C14-r2-2": ("C14", "emitter", "mart list cut with 'end > 0'; needs ITEM_NONE as the first item with items after it", ["C14"]),
+ "C15-r2-1": ("C15", "emitter", "empty-script fast path ignores the scope; needs an empty (or poryswitch-emptied) body in a non-global script / inline map script", ["C15"]),
+ "C15-r2-2": ("C15", "emitter", "'has a modifier' treated as 'is global' for labels; needs a label written with (local)", ["C15"]),
+ "C16-r2-1": ("C16", "emitter", "escaped input path cached in a package variable; needs two compilations with different paths in one process", ["C16"]),
+ "C16-r2-2": ("C16", "emitter", "raw statements emit markers whenever -lm is on, even without a path; needs -lm, empty path and a raw statement", ["C16"]),
+ "C17-r2-1": ("C17", "emitter", "jump-target scratch map is package level and not cleared when the emitter fails; needs an earlier compilation failing in the emitter", ["C17"]),
+ "C17-r2-2": ("C17", "parser", "a const swallows a directly following raw block; needs const immediately followed by raw", ["C17"]),
+ "C18-r2-1": ("C18", "parser", "constants resolved transitively: const X = X plus a use spins forever without consuming tokens", ["C18", "C13"]),
+ "C18-r2-2": ("C18", "parser", "lint mode rejects a statement poryswitch without '_' that normal mode accepts with its switches", ["C18"]),
+ "C19-r2-1": ("C19", "emitter", "# and // comment loops split apart; needs a // comment followed by a # comment in one gap", ["C19"]),
+ "C19-r2-2": ("C19", "parser", "character column of 0-leading numbers taken from the byte counter; needs such a number after a multi-byte character on its line", ["C19"]),
+ "C20-r2-1": ("C20", "parser", "continue-must-be-last re-done as a scan in parseBlockStatement only; needs continue followed by statements directly in a case body", ["C20"]),
+ "C20-r2-2": ("C20", "emitter", "chunk-label set filled while rendering; needs a user label equal to the label of a chunk rendered later", ["C20"]),
 }
 only = sys.argv[1:]
 rows = []
